@@ -1409,7 +1409,10 @@ class Stage:
         ret.parameters = deepcopy(self.parameters)
         ret.variables = deepcopy(self.variables)
 
-        ret._offsets = deepcopy(self._offsets)
+        # The shifted expressions may refer to the template's placeholders as well (e.g. next(x*t))
+        ret._offsets = HashDict()
+        for k_off, (e_off, n_off) in self._offsets.items():
+            ret._offsets[k_off] = (substitute([MX(e_off)], subst_from, subst_to)[0], n_off)
         ret._param_vals = copy(self._param_vals)
         ret._state_der = copy(self._state_der)
         ret._scale_der = copy(self._scale_der)
